@@ -110,7 +110,9 @@ check("C08",
       "19 queries, in-place vandalism of returned values, white-box pokes of one table and re-parse (transition cover, all "
       "sequences to a bound, random walks of length 10) are replayed on one real instance over 4 files; after every step each "
       "table's answers are classified against a freshly parsed instance and TLC validates the event trace against the spec's "
-      "actions; copy = source but for the mother and node-identity disjointness are checked on the fresh instance.",
+      "actions; copy = source but for the mother and node-identity disjointness are checked on the fresh instance; a copy "
+      "clause (every CopyDecay with a source gets exactly one table equal to the source's, every table listed once) is judged "
+      "by TLC on random files with several CopyDecay statements.",
       "Trusts TLC and harness/c08.py; poke and identity comparison use the private attribute _parsed_decays (skipped with a note "
       "if a refactoring removes it); 'fresh instance' is the oracle the property itself names.",
       "DESIGN.md section 5, C08")
@@ -150,7 +152,8 @@ check("C06",
       "relations, that the longest-first ordered alternation equals the declarative longest match, that every listed name is "
       "itself, that word-character extensions are labels, and refutes the unsorted alternation. Concretely every published "
       "name x PHOTOS x parameter forms x neighbours that extend model names, all prefix-related pairs side by side, registered "
-      "name families overlapping published names (one or two registration calls), near-miss unknown words and defined aliases "
+      "name families overlapping published names (registered in one or two calls, also after grammar()/grammar_info() was "
+      "called, also parsed twice), near-miss unknown words and defined aliases "
       "are parsed by the real code; TLC classifies the real word against the real name list and judges acceptance, verbatim "
       "reporting, untouched neighbours and rejection.",
       "Trusts TLC (string operators) and harness/c06.py; registered names end in a word character.",
@@ -225,8 +228,8 @@ check("C19",
       "in a recording namespace (every assignment a declaration, every look-up a use, an undeclared symbol a NameError); the "
       "C++ text is scanned. TLC judges declared-before-use for both, equality of event type, mass constants, resonance "
       "variables, fit parameters (name, value, error, fixedness) and of the amplitude list (coefficient names, values, "
-      "fixedness, spin factors, lineshapes, counts), distinct _r/_i names, amplitudes once each in input order, returned = "
-      "printed, and the command line giving the same lines.",
+      "fixedness, spin factors, lineshapes, counts), fit parameters equal to those of the input file, distinct _r/_i names, "
+      "amplitudes once each in input order, returned = printed, and the command line giving the same lines.",
       AMP_NOTE + " The C++ text is read with regular expressions; sA_0 is exempt for the shipped model, which does not define sA0.",
       "DESIGN.md section 5, C19")
 
@@ -239,7 +242,8 @@ check("C20",
       "each in its own fresh interpreter over 4 real files (disjoint / overlapping resonances, option absent / 0 / 1); every "
       "call's observable result (amplitudes, tables, text as a line multiset without the timestamp) must equal that of the "
       "same single call in a fresh interpreter; single calls are repeated under several PYTHONHASHSEED values; histories are "
-      "re-run in a second fresh process and must reproduce the text exactly.",
+      "re-run in a second fresh process and must reproduce the text exactly; the recorded histories are validated by TLC as "
+      "traces of AmpSession (declared resonance variables, coupling kind).",
       "Trusts TLC and harness/c20.py; each fresh interpreter costs ~10 s (imports + particle look-ups), so a run samples the "
       "emitted histories (seeded) rather than executing all of them.",
       "DESIGN.md section 5, C20")
